@@ -75,5 +75,5 @@ F6 == <<CF(1, "f1", "V50"), CF(2, "g1", "V50"),
         CN(3, "AR-PACKAGE", "b"), CS(9, "DESC"), CS(11, "L-2"), SA(12, "L", EVal("EN")),
         ST(12, SVal("txt")), CS(12, "TT"), ST(13, SVal("u")), CN(12, "XREF-TARGET", "x")>>
 AttrValuesDef == {<<"UUID", SVal("u1")>>, <<"DEST", EVal("SYSTEM-SIGNAL")>>, <<"DEST", EVal("I-SIGNAL")>>, <<"NAME-PATTERN", SVal("x")>>,
-                  <<"UUID", SVal("say \"hi\"")>>}
+                  <<"UUID", SVal("say {22}hi{22}")>>}    \* {22}: a double quote (the harness substitutes it)
 =============================================================================
